@@ -58,6 +58,8 @@ CONTENT_ROWS = [
     # indented content follows; an unindented line continues a paragraph lazily, but not after a blank line
     ('ListItem', ['- a\n'], ['a\n'], 0), ('ListItem', ['- a\n', '  b\n'], ['a\n', 'b\n'], 0),
     ('ListItem', ['- a\n', '    b\n'], ['a\n', '  b\n'], 0),
+    ('ListItem', ['- a  \n', '  b  \n', '  c\t\n'], ['a  \n', 'b  \n', 'c\t\n'], 0),      # what follows the content is content (hard breaks)
+    ('Quote', ['> a  \n', '> b  \n'], ['a  \n', 'b  \n'], 0),
     ('ListItem', ['- a\n', '\n', '  b\n'], ['a\n', '\n', 'b\n'], 0),
     ('ListItem', ['- a\n', '\n', '\n', '  b\n'], ['a\n', '\n', '\n', 'b\n'], 0),
     ('ListItem', ['- a\n', '  \n', '  b\n'], ['a\n', '\n', 'b\n'], 0),
